@@ -60,7 +60,7 @@ INF = float("inf")
 
 
 def budget(tier):
-    return int(os.environ.get("VERIF_BUDGET", 0)) or {"quick": 420, "thorough": 9000}[tier]
+    return int(os.environ.get("VERIF_BUDGET", 0)) or {"quick": 2000, "thorough": 20000}[tier]
 
 
 # ================================================================== generation
@@ -135,14 +135,41 @@ def gen_omega_case(rng):
     return {"kind": "omega", "rec": txt, "size": n, "newcov": newcov, "seed": rng.randrange(1 << 30)}
 
 
+def gen_diag_case(rng):
+    txt, metas = U.gen_diag_record(rng, key=rng.choice(["$OMEGA", "$OMEGA", "$SIGMA"]))
+    vecs = []
+    for _ in range(rng.choice([1, 2, 3])):
+        vec = []
+        for m in metas:
+            uniform = rng.random() < 0.5
+            first = gen_var_edit(rng) if rng.random() < 0.6 else {}
+            for k in range(m["n"]):
+                vec.append(first if (k == 0 or uniform) else (gen_var_edit(rng) if rng.random() < 0.7 else {}))
+        vecs.append(vec)
+    k = len(metas)
+    rm = sorted(rng.sample(range(k), rng.randint(0, max(0, k - 1)))) if k > 1 else []
+    return {"kind": "diag", "rec": txt, "edits": vecs, "remove": rm, "seed": rng.randrange(1 << 30)}
+
+
+def gen_var_edit(rng):
+    ed = {}
+    if rng.random() < 0.6:
+        ed["init"] = rng.choice([0.04, 0.09, 0.25, 1.0, 4.0, 0.3, 2.5, 0.0625, 1e-4])
+    if rng.random() < 0.35:
+        ed["fix"] = rng.random() < 0.5
+    return ed
+
+
 def gen_cases(rng: random.Random, n: int, tier: str):
     out = []
     for _ in range(n):
         r = rng.random()
-        if r < 0.55:
+        if r < 0.5:
             out.append(gen_theta_case(rng))
-        elif r < 0.67:
+        elif r < 0.63:
             out.append(gen_omega_case(rng))
+        elif r < 0.75:
+            out.append(gen_diag_case(rng))
         else:
             from harness.corr import c04_api
             out.append(c04_api.gen_api_case(rng, tier))
@@ -165,6 +192,10 @@ def corpus_cases():
         {"kind": "theta", "rec": "$THETA (FIX 3, 3) 2\n", "edits": [[{"lower": "-inf"}, {}]], "remove": [], "seed": 6},
         {"kind": "theta", "rec": "$THETA (3 FIX) 2\n", "edits": [[{"lower": 1.0}, {}]], "remove": [], "seed": 7},
         {"kind": "theta", "rec": "$THETA (-INF,3,INF) 2 ; x\n", "edits": [[{"init": 2.0}, {}]], "remove": [1], "seed": 8},
+        # split-xn path of the diagonal omega update: FIX removed where it agrees, inserted where it differs
+        {"kind": "diag", "rec": "$OMEGA (0.1 FIX)x2\n", "edits": [[{}, {"init": 0.25}]], "remove": [], "seed": 9},
+        {"kind": "diag", "rec": "$OMEGA (0.1)x2 0.3\n", "edits": [[{"fix": True}, {}, {}]], "remove": [], "seed": 10},
+        {"kind": "diag", "rec": "$OMEGA DIAG(3) 0.1 0.2 SD 0.3 ; c\n", "edits": [[{}, {"init": 0.09}, {}]], "remove": [2], "seed": 11},
     ] + c04_api.corpus_cases()
 
 
@@ -186,6 +217,16 @@ def shrink(case):
                     c["edits"] = [list(map(dict, v)) for v in case["edits"]]
                     del c["edits"][vi][pi][key]
                     yield c
+    elif case["kind"] == "diag":
+        for i in range(len(case["edits"])):
+            if len(case["edits"]) > 1:
+                c = dict(case)
+                c["edits"] = [case["edits"][i]]
+                yield c
+        if case["remove"]:
+            c = dict(case)
+            c["remove"] = []
+            yield c
     elif case["kind"] == "api":
         from harness.corr import c04_api
         yield from c04_api.shrink(case)
@@ -587,9 +628,149 @@ def run_omega_case(case, drv):
     return {"k": k, "mon": mon, "tags": tags, "nontrivial": True}
 
 
+# ------------------------------------------------------------------ diagonal omega/sigma records
+
+class OP:
+    def __init__(self, init, fix):
+        self.init, self.fix = init, fix
+
+
+def diag_items(rec):
+    return list(rec.root.subtrees("diag_item"))
+
+
+def diag_oparams(rec, ps):
+    """the values OmegaRecord.update computes for each parameter: init, or init ** 0.5 for an SD item"""
+    out = []
+    pos = 0
+    for node in diag_items(rec):
+        n = int(str(node.subtree("n").leaf("INT"))) if node.find("n") else 1
+        sd = bool(node.find("SD"))
+        for init, fix in ps[pos:pos + n]:
+            out.append(U.oparam_wire(init ** 0.5 if sd else init, fix))
+        pos += n
+    out += [U.oparam_wire(init, fix) for init, fix in ps[pos:]]
+    return out
+
+
+def py_dparse(rec):
+    try:
+        blocks = rec.parse()
+    except ModelSyntaxError:
+        return ("err", "ModelSyntaxError")
+    return [(float(inits[0]), bool(fix)) for names, inits, fix, same in blocks]
+
+
+def k_diag_update(rec, ps, res, drv, k, label):
+    """ps: [(init, fix)], res: updated record or exception"""
+    m = drv.ask(["dupdate", U.drec_wire(rec.root), diag_oparams(rec, ps)])
+    if isinstance(res, Exception):
+        want = ["err", type(res).__name__]
+    else:
+        want = ["ok", U.norm(U.drec_wire(res.root))]
+    if m != want:
+        k.append(f"{label}OmegaRecord.update({str(rec.root)!r}, {ps}): model {_show(m)} code {_show(want)}")
+
+
+def run_diag_case(case, drv):
+    k, mon, tags = [], [], ["kind:diag"]
+    try:
+        rec = create_record(case["rec"])
+    except lark_errors.LarkError as e:
+        tags.append("layout-refused:" + type(e).__name__)
+        return {"k": k, "mon": mon, "tags": tags, "nontrivial": False}
+    key = case["rec"].split()[0]
+    old = py_dparse(rec)
+    items = diag_items(rec)
+    ns = [int(str(nd.subtree("n").leaf("INT"))) if nd.find("n") else 1 for nd in items]
+    if any(n > 1 for n in ns):
+        tags.append("layout:diag-xn")
+    if drv is not None:
+        w = U.drec_wire(rec.root)
+        m = drv.ask(["dparse", w])
+        if isinstance(old, tuple):
+            if m[0] != "err":
+                k.append(f"diag parse: model {m} code {old}")
+        else:
+            # the model reports the raw value and the SD flag; the code squares SD values
+            got = [(float(int(v[0][0]) / int(v[0][1])) ** (2 if v[1] == "true" else 1), v[2] == "true") for v in m[1]] if m[0] == "ok" else m
+            if m[0] != "ok" or [(sig(a), b) for a, b in got] != [(sig(a), b) for a, b in old]:
+                k.append(f"diag parse {case['rec']!r}: model {m} code {old}")
+        m = drv.ask(["dlen", w])
+        if m != str(len(rec)):
+            k.append(f"diag len: model {m} code {len(rec)}")
+    if isinstance(old, tuple):
+        tags.append("read-refused:" + old[1])
+        return {"k": k, "mon": mon, "tags": tags, "nontrivial": False}
+    nontrivial = False
+    for vec in case["edits"]:
+        new = []
+        for (init, fix), ed in zip(old, vec):
+            init = ed.get("init", init)
+            fix = ed.get("fix", fix)
+            new.append((float(init), bool(fix)))
+        if any(i == 0 and not f for i, f in new):
+            tags.append("edit-outside-domain")
+            continue
+        tags.append("op:dupdate")
+        nontrivial = nontrivial or new != old
+        try:
+            upd = rec.update([OP(i, f) for i, f in new])
+        except IndexError as e:
+            upd = e
+        if drv is not None:
+            k_diag_update(rec, new, upd, drv, k, "")
+        if isinstance(upd, Exception):
+            mon.append({"cls": "omega-diag-update-internal-error", "what": f"OmegaRecord.update raised {type(upd).__name__} on {case['rec']!r}"})
+            continue
+        text = key + str(upd.root)
+        # which witness class would a failure belong to
+        pos = 0
+        split = False
+        for n in ns:
+            if n > 1 and any(p != new[pos] for p in new[pos:pos + n]):
+                split = True
+            pos += n
+        try:
+            got = py_dparse(create_record(text))
+        except lark_errors.LarkError as e:
+            got = ("err", type(e).__name__)
+        want = [(sig(i), f) for i, f in new]
+        if isinstance(got, tuple) or [(sig(i), f) for i, f in got] != want:
+            cls = "omega-diag-repeat-split-fix" if split else "omega-diag-update-readback"
+            mon.append({"cls": cls, "what": f"update of {case['rec']!r} to {new} writes {text!r}, read back {got}"})
+    inds = case["remove"]
+    if inds:
+        tags.append("op:dremove")
+        rem = rec.remove([(i, 0) for i in inds])
+        if drv is not None:
+            m = drv.ask(["dremove", U.drec_wire(rec.root), inds])
+            if m != U.norm(U.drec_wire(rem.root)):
+                k.append(f"OmegaRecord.remove {inds} on {case['rec']!r}: model {_show(m)} code {_show(U.norm(U.drec_wire(rem.root)))}")
+        text = key + str(rem.root)
+        want = []
+        pos = 0
+        for i, n in enumerate(ns):
+            if i not in inds:
+                want += old[pos:pos + n]
+            pos += n
+        try:
+            got = py_dparse(create_record(text))
+        except lark_errors.LarkError as e:
+            got = ("err", type(e).__name__)
+        if got != want:
+            mon.append({"cls": "omega-diag-remove-readback", "what": f"remove({inds}) of {case['rec']!r} writes {text!r}, read back {got}, expected {want}"})
+        elif case["rec"].endswith("\n") and not text.endswith("\n"):
+            mon.append({"cls": "omega-diag-remove-last-item", "what": f"remove({inds}) of {case['rec']!r} writes {text!r}: the record's final newline is gone"})
+        nontrivial = True
+    return {"k": k, "mon": mon, "tags": tags, "nontrivial": nontrivial}
+
+
 def run_case(case, drv):
     if case["kind"] == "theta":
         return run_theta_case(case, drv)
+    if case["kind"] == "diag":
+        return run_diag_case(case, drv)
     if case["kind"] == "omega":
         return run_omega_case(case, drv)
     from harness.corr import c04_api
